@@ -473,3 +473,83 @@ func sameList(a, b []string, ordered bool) bool {
 	}
 	return true
 }
+
+// directedJpCases: (path, data) pairs aimed at corners the seeded generator rarely reaches:
+// filter operands anchored at the document root whose key also occurs in the elements,
+// filters as the last fragment and followed by more, on objects and on top-level arrays.
+func directedJpCases() (paths [][]Frag, datas []any) {
+	R, A := Frag{Kind: "R"}, Frag{Kind: "A"}
+	ck := func(k string) Frag { return Frag{Kind: "c", Key: k} }
+	nn := func(i int) Frag { return Frag{Kind: "n", N: i} }
+	pe := func(fs ...Frag) *Eqn { return &Eqn{Kind: "p", Path: fs} }
+	flt := func(op string, a, b *Eqn) Frag { return Frag{Kind: "f", Eq: &Eqn{Kind: "bin", Op: op, A: a, B: b}} }
+	obj := func(kv ...any) map[string]any {
+		m := map[string]any{}
+		for i := 0; i+1 < len(kv); i += 2 {
+			m[kv[i].(string)] = kv[i+1]
+		}
+		return m
+	}
+	items := []any{obj("v", int64(1), "limit", int64(5)), obj("v", int64(7)), obj("v", int64(3), "limit", int64(0)), obj("v", int64(2), "want", int64(1))}
+	doc := obj("items", items, "limit", int64(2), "want", int64(7))
+	arr := []any{obj("v", int64(3)), obj("v", int64(1)), obj("v", int64(5), "x", int64(9)), obj("v", int64(3))}
+	for _, op := range []string{"gt", "lt", "eq", "neq", "gte", "lte"} {
+		f1 := flt(op, pe(A, ck("v")), pe(R, ck("limit")))
+		f2 := flt(op, pe(A, ck("v")), pe(R, ck("want")))
+		f3 := flt(op, pe(A, ck("v")), pe(R, nn(0), ck("v")))
+		f4 := flt(op, pe(R, ck("limit")), pe(A, ck("v")))
+		for _, f := range []Frag{f1, f2, f4} {
+			paths = append(paths, []Frag{R, ck("items"), f}, []Frag{R, ck("items"), f, ck("v")}, []Frag{R, Frag{Kind: "D"}, f})
+			datas = append(datas, doc, doc, doc)
+		}
+		paths = append(paths, []Frag{R, f3}, []Frag{R, f3, ck("v")})
+		datas = append(datas, arr, arr)
+	}
+	return
+}
+
+// defuseRootOperands returns a copy of the path in which every filter operand anchored at the
+// document root ($...) that denotes exactly one scalar in doc is replaced by that scalar.
+// changed: at least one operand was replaced; ok: every root-anchored operand could be replaced.
+func defuseRootOperands(path []Frag, doc any) (out []Frag, changed, ok bool) {
+	ok = true
+	var eq func(e *Eqn) *Eqn
+	var frs func(fs []Frag) []Frag
+	eq = func(e *Eqn) *Eqn {
+		if e == nil {
+			return nil
+		}
+		c := *e
+		switch e.Kind {
+		case "p":
+			if len(e.Path) > 0 && e.Path[0].Kind == "R" {
+				rs := BuildExpr(e.Path).Get(doc)
+				if len(rs) == 1 {
+					switch rs[0].(type) {
+					case nil, bool, int64, float64, string:
+						changed = true
+						return &Eqn{Kind: "v", Const: rs[0]}
+					}
+				}
+				ok = false
+				return &c
+			}
+			c.Path = frs(e.Path)
+		default:
+			c.A, c.B = eq(e.A), eq(e.B)
+		}
+		return &c
+	}
+	frs = func(fs []Frag) []Frag {
+		o := make([]Frag, len(fs))
+		for i, f := range fs {
+			o[i] = f
+			if f.Kind == "f" {
+				o[i].Eq = eq(f.Eq)
+			}
+		}
+		return o
+	}
+	out = frs(path)
+	return
+}
